@@ -264,6 +264,28 @@ def run(cfg):
     years = [1873, 1900, 1999, 2000, 2001, 2004, 2100, 2126] if cfg.tier == 'thorough' else [1900, 2000, 2019]
     cf = lib.fn(CXX_FN)
     ev = CEval(lib)
+    from .aeval import AEval, AObj, CxxModule
+    amod = CxxModule(lib, ['ace_time::'])
+
+    def folded(y, mth, dow, dom):
+        got = ev.call(cf, None, (y, mth, dow, dom))
+        return (got.fields.get('month'), got.fields.get('day')) if hasattr(got, 'fields') else got
+
+    def interpreted(y, mth, dow, dom):
+        try:
+            r = AEval(module=amod, typed=True, max_steps=20000).call_function(cf.name, [y, mth, dow, dom], chosen=CxxModule._Fn(cf))
+        except IndexError as x_:
+            raise ValueError('constant subscript outside the table (%s)' % x_)
+        return (r.attrs.get('month'), r.attrs.get('day')) if isinstance(r, AObj) else r
+    # constant propagation is the fast path; it is used when it follows the body and agrees with the typed interpreter on a
+    # few probes (it does not follow every idiom, e.g. a result object whose fields are assigned one by one)
+    resolver, how = folded, 'fold'
+    try:
+        if any(folded(*p_) != interpreted(*p_) for p_ in ((2000, 3, 7, 0), (2000, 3, 7, 8), (2001, 10, 1, -25), (2004, 2, 3, 23), (2000, 11, 0, 5))):
+            resolver, how = interpreted, 'interpret'
+    except Exception:
+        resolver, how = interpreted, 'interpret'
+    R.analysed['calcStartDayOfMonth evaluated by'] = how
     n5, bad5 = 0, []
     try:
         for y in years:
@@ -287,14 +309,13 @@ def run(cfg):
                             continue          # year spill: refused by the compiler (R2)
                         n5 += 1
                         try:
-                            got = ev.call(cf, None, (y, mth, dow, dom))
+                            gm = resolver(y, mth, dow, dom)
                         except Exception as e_:
                             if 'constant subscript' in str(e_) and 'outside' in str(e_):
                                 # the body indexes a table outside its bounds for this admitted expression: undefined behaviour
                                 bad5.append('%d month %d weekday %d day %d -> %s (calendar: %d-%02d)' % (y, mth, dow, dom, str(e_).strip("'\""), dt.month, dt.day))
                                 continue
                             raise
-                        gm = (got.fields.get('month'), got.fields.get('day')) if hasattr(got, 'fields') else got
                         if gm != (dt.month, dt.day):
                             bad5.append('%d month %d weekday %d day %d -> %r (calendar: %d-%02d)' % (y, mth, dow, dom, gm, dt.month, dt.day))
     except AnalysisError:
